@@ -44,16 +44,28 @@ try:
 finally:
     subprocess.run(["git", "-C", "/repo", "worktree", "remove", "--force", wt])
     shutil.rmtree(wt, ignore_errors=True)
-# our checks against the change, on /repo itself, undone straight afterwards
-st = subprocess.run(["git", "-C", "/repo", "status", "--porcelain"], stdout=subprocess.PIPE, text=True).stdout.strip()
-if st:
-    sys.exit("/repo is not clean: " + st)
+# our checks against the change: on /repo itself, undone straight afterwards (default), or - with SEEDCHECK_SCRATCH=1, for
+# the time /repo is in use by a long run - on a scratch worktree handed to the driver through VERIF_REPO
+scratch = os.environ.get("SEEDCHECK_SCRATCH") == "1"
+target = "/repo"
+if scratch:
+    target = "/var/tmp/seedrepo-" + name
+    subprocess.run(["git", "-C", "/repo", "worktree", "remove", "--force", target], stderr=subprocess.DEVNULL)
+    shutil.rmtree(target, ignore_errors=True)
+    subprocess.run(["git", "-C", "/repo", "worktree", "add", "-q", "--detach", target, "HEAD"], check=True)
+else:
+    st = subprocess.run(["git", "-C", "/repo", "status", "--porcelain"], stdout=subprocess.PIPE, text=True).stdout.strip()
+    if st:
+        sys.exit("/repo is not clean: " + st)
 meta["checks"] = {}
+meta["checks_ran_against"] = "scratch worktree (VERIF_REPO)" if scratch else "/repo with the patch applied"
 try:
-    subprocess.run(["git", "-C", "/repo", "apply", patch], check=True)
+    subprocess.run(["git", "-C", target, "apply", patch], check=True)
     for c in checks:
         t0 = time.time()
         e = dict(os.environ, VERIF_NOEVIDENCE="1")
+        if scratch:
+            e["VERIF_REPO"] = target
         r = subprocess.run([os.path.join(V, "bin", "vcheck"), c, "quick"], env=e, stdout=subprocess.PIPE, stderr=subprocess.STDOUT, text=True)
         viol = [l for l in r.stdout.splitlines() if l.startswith("VIOLATION")]
         first = ""
@@ -70,6 +82,10 @@ try:
                 if not tracked:
                     os.remove(m.group(1))
 finally:
-    subprocess.run(["git", "-C", "/repo", "checkout", "--", "."], check=True)
+    if scratch:
+        subprocess.run(["git", "-C", "/repo", "worktree", "remove", "--force", target])
+        shutil.rmtree(target, ignore_errors=True)
+    else:
+        subprocess.run(["git", "-C", "/repo", "checkout", "--", "."], check=True)
 json.dump(meta, open(os.path.join(out, "meta.json"), "w"), indent=1)
 print(json.dumps({k: v for k, v in meta.items() if k != "ran"}, indent=1))
